@@ -182,10 +182,16 @@ def clocks_needed(ops):
 
 # ---------------------------------------------------------------- generators
 
+NO_OF = [False]     # set while generating conformant programs: no forged OF* events
+
+
 def rand_mcv(rng, emu_safe=False):
     if emu_safe:
         return bytes([79, 85, rng.choice([97, 98, 120, 122, 48])])       # 'O','U',x : ignored by the emulator
     r = rng.below(10)
+    if NO_OF[0]:
+        m = bytes([rng.choice([79, 86, 54, 84, 255, 0, 65]), rng.choice([72, 85, 66, 0, 255, 70]), rng.below(256)])
+        return m if m[:2] != b"OF" else b"OUf"
     if r == 0:
         return bytes([79, 70, rng.choice([91, 93])])                    # a user event that looks like a flush marker
     if r == 1:
@@ -274,7 +280,15 @@ def reachable(d):
     return d == 0 or d == 12 or d >= 14
 
 
-def gen_exhaustive(rng, cap, seg_per_script=48, emu=False, clocks="sorted", only_targets=None, levels=None):
+def gen_exhaustive(rng, cap, seg_per_script=48, emu=False, clocks="sorted", only_targets=None, levels=None, conformant=False):
+    NO_OF[0] = conformant
+    try:
+        return _gen_exhaustive(rng, cap, seg_per_script, emu, clocks, only_targets, levels)
+    finally:
+        NO_OF[0] = False
+
+
+def _gen_exhaustive(rng, cap, seg_per_script=48, emu=False, clocks="sorted", only_targets=None, levels=None):
     """Every reachable fill level L in [0,cap) x every next event: list of Cases.
     A segment is: F (evlen becomes 24), fillers up to L, the target event.  Levels not
     reachable from 24 (L < 24, L = 37) are reached from the empty buffer at thread start."""
@@ -566,23 +580,35 @@ def json_path(d):
     return os.path.join(d, "ovni", "loom.vf", "proc.100", "thread.100", "stream.json")
 
 
-def run_chunk(ctx, cases, wd, tag, judge):
+def run_chunk(ctx, cases, wd, tag, judge, prejudge=None, coq_valid=False):
     """Run one chunk of cases on the implementation and on both model variants, call
-    judge(case, res) for each with res = dict(impl_status, dir, obs bytes, emit log, m1, m0)."""
+    judge(case, res) for each with res = dict(impl_status, dir, obs bytes, emit log, m1, m0[, coq_valid]).
+    prejudge(case, res) runs before (outside the lock, e.g. the emulator)."""
     base = os.path.join(wd, tag)
     os.makedirs(base, exist_ok=True)
     lines1 = [c.line(1) for c in cases]
     impl = common.batch([ctx.hx, base], lines1, timeout=1200)
+    vres = [None] * len(cases)
     if ctx.oracle:
-        mo = common.batch(oracle_cmd(ctx), lines1 + [c.line(0) for c in cases], timeout=1800)
+        vl = []
+        vidx = []
+        if coq_valid:
+            for i, il in enumerate(impl):
+                f = il.split(" ")
+                if f[0] == "ok" and os.path.exists(obs_path(f[-1])):
+                    vl.append("V @" + obs_path(f[-1]))
+                    vidx.append(i)
+        mo = common.batch(oracle_cmd(ctx), lines1 + [c.line(0) for c in cases] + vl, timeout=1800)
         m1 = [parse_model_line(x) for x in mo[:len(cases)]]
-        m0 = [parse_model_line(x) for x in mo[len(cases):]]
+        m0 = [parse_model_line(x) for x in mo[len(cases):2 * len(cases)]]
+        for i, v in zip(vidx, mo[2 * len(cases):]):
+            vres[i] = v
     else:
         m1 = m0 = [None] * len(cases)
     out = []
-    for c, il, a, b in zip(cases, impl, m1, m0):
+    for c, il, a, b, cv in zip(cases, impl, m1, m0, vres):
         f = il.split(" ")
-        res = {"impl_status": f[0], "dir": f[-1] if len(f) > 1 else None, "m1": a, "m0": b, "obs": None, "emit": []}
+        res = {"impl_status": f[0], "dir": f[-1] if len(f) > 1 else None, "m1": a, "m0": b, "obs": None, "emit": [], "coq_valid": cv}
         d = res["dir"]
         if d and os.path.isdir(d):
             try:
@@ -598,6 +624,8 @@ def run_chunk(ctx, cases, wd, tag, judge):
                         res["emit"].append((int(p[0]), int(p[1]), None))
             except OSError:
                 pass
+        if prejudge:
+            prejudge(c, res)
         with JUDGE_LOCK:
             out.append(judge(c, res))
         if d:
@@ -606,11 +634,11 @@ def run_chunk(ctx, cases, wd, tag, judge):
     return out
 
 
-def run_all(ctx, cases, judge, chunk=64, workers=None):
+def run_all(ctx, cases, judge, chunk=64, workers=None, prejudge=None, coq_valid=False):
     wd = trace.workdir("ovni-verif-rtbuf-")
     try:
         chunks = [cases[i:i + chunk] for i in range(0, len(cases), chunk)]
-        res = trace.pmap(lambda ic: run_chunk(ctx, ic[1], wd, "k%d" % ic[0], judge), list(enumerate(chunks)), workers=workers)
+        res = trace.pmap(lambda ic: run_chunk(ctx, ic[1], wd, "k%d" % ic[0], judge, prejudge, coq_valid), list(enumerate(chunks)), workers=workers)
     finally:
         shutil.rmtree(wd, ignore_errors=True)
     return [x for r in res for x in r]
@@ -766,3 +794,77 @@ def near_cap_jumbo(case, capv):
             if capv - 24 <= t <= capv - 1:
                 ds.append(capv - t)
     return ds
+
+
+def model_match(c, res):
+    """which model variant the implementation's outcome equals: 'both' 'fixed' 'old' or None (neither);
+    'nomodel' when the oracle is unavailable"""
+    m1, m0 = res["m1"], res["m0"]
+    ist = res["impl_status"]
+    if m1 is None:
+        return "nomodel"
+
+    def same(m):
+        if m["status"] != ist:
+            return False
+        if ist != "ok":
+            return True
+        d = res["obs"] or b""
+        if m["disk_len"] != len(d) or m["disk_md5"] != hashlib.md5(d).hexdigest():
+            return False
+        if m["disk_hex"] is not None and m["disk_hex"] != d.hex():
+            return False
+        ue = user_events(c, res["emit"])
+        if len(ue) != len(m["log"]):
+            return False
+        for u, mc in zip(ue, m["log"]):
+            if mc not in u[1]:
+                return False
+        return True
+    s1, s0 = same(m1), same(m0)
+    if s1 and s0:
+        return "both"
+    if s1:
+        return "fixed"
+    if s0:
+        return "old"
+    return None
+
+
+def load_corpus(prop):
+    d = os.path.join(common.VERIF, "corpus", prop)
+    out = []
+    if os.path.isdir(d):
+        for f in sorted(os.listdir(d)):
+            if f.endswith(".txt"):
+                for ln in open(os.path.join(d, f)):
+                    ln = ln.strip()
+                    if ln and not ln.startswith("#"):
+                        out.append((f, ln))
+    return out
+
+
+def parse_line(ln):
+    """inverse of Case.line (corpus files, replays)"""
+    f = ln.split(" ")
+    cap = None if f[2] == "D" else int(f[2])
+    clocks = [] if f[3] == "-" else [int(x) for x in f[3].split(",")]
+    ops = []
+    for o in ([] if f[4] == "-" else f[4].split(";")):
+        k = o[0]
+        if k == "E":
+            mcv, ch = o[1:].split(":")
+            ops.append(E(bytes.fromhex(mcv), *[(b"" if c == "z" else bytes.fromhex(c)) for c in (ch.split(",") if ch != "" else [])]))
+        elif k == "J":
+            mcv, d = o[1:].split(":")
+            if d[0] == "h":
+                ops.append(J(bytes.fromhex(mcv), data=bytes.fromhex(d[1:])))
+            else:
+                sd, n = d[1:].split(".")
+                ops.append(J(bytes.fromhex(mcv), blobspec=(int(sd), int(n))))
+        elif k in "POST":
+            t, v = o[1:].split(",")
+            ops.append(Op(k, typ=int(t), value=int(v)))
+        else:
+            ops.append(Op(k))
+    return Case(cap, clocks, ops, "corpus")
